@@ -117,6 +117,17 @@ theorem callers_use_safe_flags :
   decide
 
 open TTGen.C18_Callers in
+/-- **checkpoint_name_is_as_configured**: everywhere a checkpoint name is stored (option handling in
+`from_json`, constructors) the stored value is the configured string itself — no `realpath`,
+`abspath`, `join`, … — so the three names the crash-safety theorems speak about are the
+configured name and its `.new` / `.old` siblings, also when the name is a symbolic link. -/
+theorem checkpoint_name_is_as_configured : ∀ s ∈ nameSites, s.2 = true := by decide
+
+open TTGen.C18_Callers in
+/-- non-vacuity: there are sites that store a checkpoint name -/
+example : nameSites ≠ [] := by decide
+
+open TTGen.C18_Callers in
 /-- non-vacuity: there are call sites that rewrite the checkpoint file -/
 example : ∃ c ∈ callSites, c.sameFile = true := by decide
 
